@@ -15,9 +15,12 @@ from vlib.cosched.sched import Abort
 ASYNCIO_POPULATIONS = ["none", "sleeper", "sleeper+sync", "spinner+sync", "sleeper+spinner",
                        "child-of-trio", "late", "stubborn", "private-wait"]
 TRIO_POPULATIONS = ["none", "sleeper", "sleeper+sync", "shield0.5", "shield5", "spinner+sync",
-                    "sleeper+spinner", "child-of-asyncio", "late", "private-wait"]
+                    "sleeper+spinner", "child-of-asyncio", "late", "private-wait",
+                    "drains-other"]
 TRIGGERS = ["fail:asyncio", "fail:trio", "fail:threading", "sigint", "shutdown", "stop",
-            "ki:asyncio", "ki:trio", "ki:threading"]
+            "ki:asyncio", "ki:trio", "ki:threading",
+            # shutdown() / stop() asked for by a coroutine payload, through a helper thread
+            "shutdown:from-trio", "stop:from-trio", "shutdown:from-asyncio"]
 
 
 def population(flavour, kind):
@@ -36,6 +39,11 @@ def population(flavour, kind):
     if kind == "sleeper+spinner":
         return [mk("sleeper", [("forever", 0.7)], ("sync", 1)),
                 mk("spinner", [("sleep", 0.85), ("spin", None)])], []
+    if kind == "drains-other" and flavour == "trio":
+        # a trio payload that keeps draining, shielded, until an asyncio payload has finished
+        return [mk("drain", [("forever", 0.7)], ("shield-until", "producer-done")),
+                {"id": "asyncio-producer", "flavour": "asyncio", "steps": [("forever", 0.7)],
+                 "cleanup": ("sync-set", "producer-done")}], []
     if kind == "private-wait":
         # suspended on an object only it refers to, while the garbage collector runs
         return [mk("waiter", [("wait-private",)], ("sync", 1))], []
@@ -65,7 +73,7 @@ class Scenario:
 
         params = self.params
         trigger = params["trigger"]
-        if trigger == "stop":
+        if trigger.startswith("stop"):
             meta = MetaRunner()
             runtime = H.MetaAdapter(meta)
             blocking_run, stop = meta.run, meta.stop
@@ -87,6 +95,23 @@ class Scenario:
             kit.submit({"id": "f0", "flavour": trigger[3:],
                         "steps": [("sleep", 1.0), ("raise", "KeyboardInterrupt")]})
         late = late_a + late_t
+        if ":from-" in trigger:
+            def request_stop(env):
+                env.log("stop-call")
+                try:
+                    stop()
+                except Abort:
+                    raise
+                except BaseException as err:  # noqa: B036
+                    env.log("stop-raised", exc=err)
+                else:
+                    env.log("stop-returned")
+
+            env.shared["request-stop"] = request_stop
+            kit.submit({"id": "%s-requester" % trigger.split("-")[1],
+                        "flavour": trigger.split("-")[1],
+                        "steps": [("sleep", 1.0), ("to-thread-call", "request-stop"),
+                                  ("forever", 0.7)], "cleanup": ("sync", 1)})
 
         def outside():
             runtime.running.wait()
@@ -203,10 +228,18 @@ def scenario_params(tier):
                 pop_a in ("none", "sleeper+sync") and pop_t in ("sleeper+sync", "shield0.5",
                                                                 "shield5")):
             continue
+        if ":from-" in trigger and not (
+                pop_a in ("none", "sleeper+sync") and pop_t in ("sleeper+sync", "shield0.5")):
+            continue
+        if pop_t == "drains-other" and (pop_a != "none" or trigger in ("fail:trio", "ki:trio")):
+            # (when trio itself is what fails, the runtime only learns of it once trio has
+            # ended, and this population keeps trio from ending until the others are told:
+            # a wait in a circle by construction)
+            continue
         if "private-wait" in (pop_a, pop_t) and not (
                 {pop_a, pop_t} <= {"private-wait", "none", "sleeper"}):
             continue
-        if trigger == "stop" and ("late" in (pop_a, pop_t)):
+        if trigger.startswith("stop") and ("late" in (pop_a, pop_t)):
             # a bare MetaRunner has no documented behaviour for adopt racing stop()
             continue
         blocked = [False, True] if tier == "thorough" else [index % 2 == 1]
